@@ -1,7 +1,6 @@
 import EdsModel
 import EdsProofs.ReconcileEds
 import EdsProofs.FactsBridge
-import EdsProps.C12
 /-
   C07 — A failed canary is rolled back to the active version.
 
